@@ -340,6 +340,7 @@ def _continue_random(bt, spec, ctx, observers, extra=10):
     import random as _r
     rng = _r.Random(ctx.rng.random())
     d = 0
+    tail = []
     try:
         for op in prefix:
             if op["op"] == "observe":
@@ -347,7 +348,6 @@ def _continue_random(bt, spec, ctx, observers, extra=10):
             E.exec_op(bt, root, dates, op)
             if op["op"] == "update":
                 d = op["d"]
-        tail = []
         for _ in range(extra):
             op = G.gen_op(rng, spec, root, d, spec["T"])
             if op["op"] == "update" and op["d"] != d and root.stale:
